@@ -465,27 +465,45 @@ fn scenario_from_json(v: &Value) -> Scenario {
 }
 
 /// The step at which actor `a` died: its (k+1)-th `point` hook (the retry sleep and the harness'
-/// own yields are not `point` hooks).
-fn death_step(exec: &Exec, a: usize, k: usize) -> Option<usize> {
+/// own yields are not `point` hooks) or, at system-call granularity, its (k+1)-th system call.
+fn death_step(exec: &Exec, a: usize, k: usize, sys: bool) -> Option<usize> {
     exec.steps
         .iter()
         .enumerate()
-        .filter(|(_, s)| s.actor == a && s.name.starts_with("auth.") && !matches!(s.name.as_str(), "auth.retry_sleep" | "auth.serve" | "auth.spawned"))
+        .filter(|(_, s)| {
+            s.actor == a
+                && if sys { s.name.starts_with("fs.") } else { s.name.starts_with("auth.") && !matches!(s.name.as_str(), "auth.retry_sleep" | "auth.serve" | "auth.spawned") }
+        })
         .nth(k)
         .map(|(i, _)| i)
 }
 
-/// Another actor created lock.json between `b`'s (re-)validation step `check` and its `rename`.
-fn create_inside_window(exec: &Exec, check: &str, rename: &str, victims: &[usize]) -> bool {
+/// A source hook, as a scheduling step (hook granularity) or as a mark (system-call granularity).
+fn is_hook(s: &crate::sched::Step, hook: &str) -> bool {
+    s.name == hook || (s.name.len() == hook.len() + 1 && s.name.starts_with('@') && &s.name[1..] == hook)
+}
+
+/// Another actor (one that ends up with the role) linked its lock.json into place between `b`'s
+/// (re-)validation `check` and the rename that follows its `rename` hook.
+fn create_inside_window(exec: &Exec, check: &str, rename: &str, victims: &[usize], sys: bool) -> bool {
     let st = &exec.steps;
     for j in 0..st.len() {
-        if st[j].name != rename {
+        if !is_hook(&st[j], rename) {
             continue;
         }
         let b = st[j].actor;
-        let Some(i) = (0..j).rev().find(|&i| st[i].actor == b && st[i].name == check) else { continue };
-        for m in i + 1..j {
-            if st[m].actor != b && victims.contains(&st[m].actor) && st[m].name == "auth.acquire.create" {
+        let Some(i) = (0..j).rev().find(|&i| st[i].actor == b && is_hook(&st[i], check)) else { continue };
+        // the rename itself: at system-call granularity it is b's next rename call after the mark
+        let end = if sys { (j + 1..st.len()).find(|&m| st[m].actor == b && st[m].name.starts_with("fs.rename")).unwrap_or(st.len()) } else { j };
+        for m in i + 1..end {
+            if st[m].actor == b || !victims.contains(&st[m].actor) {
+                continue;
+            }
+            if sys {
+                if is_hook(&st[m], "auth.acquire.created") {
+                    return true;
+                }
+            } else if st[m].name == "auth.acquire.create" {
                 // the link succeeded iff that actor's next step is the hook behind it
                 if st[m + 1..].iter().find(|s| s.actor == st[m].actor).map(|s| s.name == "auth.acquire.created").unwrap_or(false) {
                     return true;
@@ -496,19 +514,20 @@ fn create_inside_window(exec: &Exec, check: &str, rename: &str, victims: &[usize
     false
 }
 
-fn check_exec(report: &Report, sc: Scenario, world: &World, exec: &Exec) {
+fn check_exec(report: &Report, sc: Scenario, world: &World, exec: &Exec, sys: bool) {
     let w = &world.shared;
     let case = || {
         json!({
             "engine": "S",
             "harness": "c18.authority",
+            "granularity": if sys { "system calls" } else { "source hooks" },
             "scenario": scenario_json(sc),
             "choice_points_only": exec.decisions.iter().filter(|d| d.enabled.len() > 1).map(|d| d.chosen).collect::<Vec<_>>(),
             "schedule": exec.schedule_string(),
             "preemptions": exec.preemptions,
         })
     };
-    let label = scenario_label(sc);
+    let label = format!("{}{}", scenario_label(sc), if sys { "@syscalls" } else { "" });
     if exec.deadlock || !exec.panicked.is_empty() {
         report.violation(&format!("C18:deadlock_or_panic:{label}"), case(), &format!("deadlock={} panicked={:?}", exec.deadlock, exec.panicked));
         return;
@@ -526,7 +545,7 @@ fn check_exec(report: &Report, sc: Scenario, world: &World, exec: &Exec) {
         }
         if let Scenario::Crashing { at_hook, .. } = sc {
             if *a == 0 && w.dead[0].load(Ordering::SeqCst) {
-                if let Some(d) = death_step(exec, 0, at_hook) {
+                if let Some(d) = death_step(exec, 0, at_hook, sys) {
                     end = end.min(d);
                 }
             }
@@ -537,13 +556,13 @@ fn check_exec(report: &Report, sc: Scenario, world: &World, exec: &Exec) {
     // How a lock was lost, if it was: the two known time-of-check / time-of-use windows (a lock is
     // re-validated, another actor cleans up and acquires, the re-validated lock is renamed) are
     // told apart from every other way of getting there.
-    let class = if create_inside_window(exec, "auth.stale.reread", "auth.stale.rename", &role_actors) {
+    let class = if create_inside_window(exec, "auth.stale.reread", "auth.stale.rename", &role_actors, sys) {
         "stale_cleanup_toctou"
-    } else if create_inside_window(exec, "auth.corrupt.check", "auth.corrupt.rename", &role_actors) {
+    } else if create_inside_window(exec, "auth.corrupt.check", "auth.corrupt.rename", &role_actors, sys) {
         "corrupt_cleanup_toctou"
-    } else if exec.steps.iter().any(|s| s.name == "auth.corrupt.rename") {
+    } else if exec.steps.iter().any(|s| is_hook(s, "auth.corrupt.rename")) {
         "via_corrupt_cleanup"
-    } else if exec.steps.iter().any(|s| s.name == "auth.stale.rename") {
+    } else if exec.steps.iter().any(|s| is_hook(s, "auth.stale.rename")) {
         "via_stale_cleanup"
     } else {
         "acquire"
@@ -621,23 +640,24 @@ fn check_exec(report: &Report, sc: Scenario, world: &World, exec: &Exec) {
     }
 }
 
-fn run_config(report: &Report, sc: Scenario, bound: usize) {
+fn run_config(report: &Report, sc: Scenario, bound: usize, sys: bool) {
     let mut outcomes = std::collections::HashSet::new();
-    let label = scenario_label(sc);
+    let label = format!("{}{}", scenario_label(sc), if sys { "@syscalls" } else { "" });
+    let filter: Vec<&'static str> = if sys { SYS_FILTER.to_vec() } else { vec!["start", "auth.*"] };
     let stats = {
         let oc = &mut outcomes;
         explore(
             bound,
             u64::MAX,
             false,
-            Some(vec!["start", "auth.*"]),
+            Some(filter.clone()),
             &|| report.over_cap(),
             &|| make_world(sc),
             &mut |world: &World, exec: &Exec| {
-                report.eval(Some(&(sc, exec.trace_hash())));
+                report.eval(Some(&(sc, sys, exec.trace_hash())));
                 let roles: Vec<(usize, Ev)> = world.shared.events.lock().unwrap().iter().map(|(a, e, _)| (*a, e.clone())).collect();
                 oc.insert(format!("{roles:?}"));
-                check_exec(report, sc, world, exec);
+                check_exec(report, sc, world, exec, sys);
                 // drop guards without yielding into the (finished) scheduler
                 world.shared.guards.lock().unwrap().clear();
             },
@@ -661,20 +681,71 @@ pub fn replay(report: &Report, case: &Value) {
         // replay files written before the scenario field existed
         Scenario::Contend { leftover: parse_leftover(case["leftover"].as_str().unwrap_or("")), servers: case["contenders"].as_u64().unwrap_or(2) as usize }
     };
+    let sys = case["granularity"].as_str() == Some("system calls");
+    if sys && !crate::sched::install_fs_callback() {
+        crate::common::machinery_failure("replay of a system-call schedule needs the shim (the parent re-executes itself with LD_PRELOAD)");
+    }
+    let filter: Vec<&'static str> = if sys { SYS_FILTER.to_vec() } else { vec!["start", "auth.*"] };
     let prefix: Vec<usize> = case["choice_points_only"].as_array().map(|a| a.iter().filter_map(|v| v.as_u64().map(|x| x as usize)).collect()).unwrap_or_default();
-    let (world, actors) = make_world(sc);
-    let exec = crate::sched::run_once(actors, &prefix, false, Some(vec!["start", "auth.*"]));
-    println!("replay: {:?}\nrole events: {:?}", exec.schedule_string(), world.shared.events.lock().unwrap());
-    report.eval(Some(&"replay"));
-    check_exec(report, sc, &world, &exec);
-    world.shared.guards.lock().unwrap().clear();
+    let mut first: Option<Vec<String>> = None;
+    for round in 0..2 {
+        let (world, actors) = make_world(sc);
+        let exec = crate::sched::run_once(actors, &prefix, false, Some(filter.clone()));
+        println!("replay round {round}: {:?}\nrole events: {:?}", exec.schedule_string(), world.shared.events.lock().unwrap());
+        match &first {
+            None => first = Some(exec.schedule_string()),
+            Some(f) if *f != exec.schedule_string() => crate::common::machinery_failure("replay not deterministic"),
+            _ => {}
+        }
+        if round == 1 {
+            report.eval(Some(&"replay"));
+            check_exec(report, sc, &world, &exec, sys);
+        }
+        world.shared.guards.lock().unwrap().clear();
+    }
 }
+
+const SYS_FILTER: [&str; 6] = ["start", "fs.*", "auth.retry_sleep", "auth.serve", "auth.spawned", "@marks"];
+
+fn shim_env() -> Vec<(String, String)> {
+    vec![
+        ("LD_PRELOAD".to_string(), format!("{}/target/crashshim.so", crate::common::VERIF_DIR)),
+        ("RIPV_PREFIX".to_string(), "/dev/shm/rip-verif/c18".to_string()),
+    ]
+}
+
+/// Worker under the shim: one scenario at system-call granularity.
+fn sys_worker(opts: Opts, spec: &str) -> i32 {
+    let report = Report::new("C18", "model_checking", opts.clone());
+    if !crate::sched::install_fs_callback() {
+        crate::common::machinery_failure("c18 system-call worker: the shim is not preloaded");
+    }
+    crate::sched::install_hooks();
+    let v: Value = serde_json::from_str(spec).unwrap_or(Value::Null);
+    if let Some(path) = v["replay"].as_str() {
+        let case = crate::common::load_replay_case(std::path::Path::new(path));
+        replay(&report, &case);
+        return report.finish();
+    }
+    let sc = scenario_from_json(&v["scenario"]);
+    let bound = v["bound"].as_u64().unwrap_or(1) as usize;
+    run_config(&report, sc, bound, true);
+    report.finish()
+}
+
+/// Upper bound on the file-system calls a server makes until it serves (crash points beyond a
+/// run's last call simply never fire).
+const SERVER_SYSCALLS_MAX: usize = 26;
 
 /// Number of `point` hooks a lone server passes on an empty store (record write, link, linked,
 /// meta tmp, meta rename).
 const SERVER_HOOKS: usize = 5;
 
 pub fn run(opts: Opts) -> i32 {
+    if let Some(spec) = opts.extra.iter().find_map(|a| a.strip_prefix("sys=")) {
+        let spec = spec.to_string();
+        return sys_worker(opts, &spec);
+    }
     let report = Report::new("C18", "model_checking", opts.clone());
     report.set_rule(
         "engine S over the real lock primitives; scenarios: (a) 2 (thorough: also 3) servers x leftover {no files, lock / lock+meta / meta only of a dead \
@@ -682,7 +753,9 @@ pub fn run(opts: Opts) -> i32 {
          down (guard drop) + 2 servers; (d) a server that dies before the effect after each of its hooks (private record write, link, after the link, meta \
          tmp, meta rename) + 2 servers; (e) 2 clients (attach / stale + corrupt cleanup / spawn own server; <=1 preemption in quick) or 1 client + 1 independent server x \
          leftover (thorough: also 2 clients + 1 server, <=1 preemption); all interleavings at the file-system step hooks of acquire / stale cleanup / corrupt cleanup / meta write / release with <=2 \
-         (quick) / <=3 (thorough; 2 for 3+ contenders) preemptions; after every execution a fresh sequential contender runs on the final files; \
+         (quick) / <=3 (thorough; 2 for 3+ contenders) preemptions; after every execution a fresh sequential contender runs on the final files; then scenarios (a)-(d) again with EVERY file-system call of the \
+         primitives (open, read, stat, link, rename, unlink, write, mkdir) as the scheduling points and crash points, under an LD_PRELOAD shim, with \
+         <=1 (quick) / <=2 (thorough) preemptions; \
          state = distinct executed schedule",
     );
     report.assume("the server's private async recovery loop and the client's ensure_local_authority loop are restated branch by branch in the harness over the public primitives; pid reuse and clock skew are outside the model");
@@ -691,7 +764,11 @@ pub fn run(opts: Opts) -> i32 {
     crate::sched::install_hooks();
     if let Some(path) = &opts.replay {
         let case = crate::common::load_replay_case(path);
-        replay(&report, &case);
+        if case["granularity"].as_str() == Some("system calls") {
+            crate::common::run_workers(&report, vec![vec!["c18".into(), "--tier".into(), report.tier().as_str().into(), format!("sys={}", json!({"replay": path.to_string_lossy()}))]], 1, &shim_env());
+        } else {
+            replay(&report, &case);
+        }
         return report.finish();
     }
     let tier = report.tier();
@@ -725,7 +802,30 @@ pub fn run(opts: Opts) -> i32 {
         if report.over_cap() {
             return;
         }
-        run_config(&report, *sc, *b);
+        run_config(&report, *sc, *b, false);
     });
+    // the same protocol with EVERY file-system call of the primitives as a scheduling point (and as
+    // a crash point), under the system-call shim: independent of where the source hooks sit
+    let bs = tier.pick(1, 2);
+    let mut sys_configs: Vec<(Scenario, usize)> = Vec::new();
+    for l in LEFTOVERS {
+        sys_configs.push((Scenario::Contend { leftover: l, servers: 2 }, bs));
+    }
+    sys_configs.push((Scenario::LiveHolder { reachable: true, servers: 2 }, bs));
+    sys_configs.push((Scenario::Releasing { servers: 2 }, bs));
+    for k in 0..SERVER_SYSCALLS_MAX {
+        sys_configs.push((Scenario::Crashing { at_hook: k, servers: tier.pick(1, 2) }, bs));
+    }
+    if tier == Tier::Thorough {
+        for l in LEFTOVERS {
+            sys_configs.push((Scenario::Clients { leftover: l, clients: 1, servers: 1 }, 1));
+        }
+    }
+    report.set_extra("configs_at_system_call_granularity", json!(sys_configs.len()));
+    let jobs: Vec<Vec<String>> = sys_configs
+        .iter()
+        .map(|(sc, b)| vec!["c18".to_string(), "--tier".into(), tier.as_str().into(), "--wall-cap".into(), format!("{}", report.opts.wall_cap_s), format!("sys={}", json!({"scenario": scenario_json(*sc), "bound": b}))])
+        .collect();
+    crate::common::run_workers(&report, jobs, 16, &shim_env());
     report.finish()
 }
